@@ -348,6 +348,58 @@ def timeFromExcelTimeF {F : Type} (ops : FloatOps2 F) (excelTime : F) (date1904 
 def excelDateToTime (excelDate : Rat) (use1904 : Bool) : Except Unit Int :=
   if excelDate < 0 then .error () else .ok (timeFromExcelTime excelDate use1904)
 
+/-- `ExcelDateToTime` with the float64 comparison explicit -/
+def excelDateToTimeF {F : Type} (ops : FloatOps2 F) (excelDate : F) (use1904 : Bool) : Except Unit Int :=
+  if ops.lt excelDate (ops.ofInt 0) then .error () else .ok (timeFromExcelTimeF ops excelDate use1904)
+
+/-! ### glue around `setCellTime`: the workbook's date-system flag and the default style -/
+
+/-- `getTimeNumFmt(t)`: built-in number format chosen for a time value, from its wall clock in its
+own zone (`t.AddDate(0, 1, 0)` is `time.Date(y, m+1, d, …)` normalised) -/
+def getTimeNumFmt (c : Civil) : Int :=
+  let nextMonthDay := (civilFromDays (daysFromCivil c.y (c.m + 1) c.d)).2.2
+  if c.d = 1 ∧ nextMonthDay = 1 then 17
+  else if c.h = 0 ∧ c.mi = 0 ∧ c.s = 0 ∧ c.ns = 0 then 14
+  else 22
+
+/-- what the check observes of a cell style: built-in number format id, whether a custom number
+format is attached, and one unrelated attribute (bold) standing for "the rest of the style" -/
+structure CellStyle where
+  numFmt : Int
+  custom : Bool
+  bold : Bool
+  deriving DecidableEq, Repr
+
+/-- `(*File).setDefaultTimeStyle`: style index 0 (`none`) gets a fresh style with the format;
+an existing style is copied with `NumFmt` replaced (`NewStyle` keeps a custom number format) -/
+def setDefaultTimeStyle (cur : Option CellStyle) (format : Int) : CellStyle :=
+  match cur with
+  | none => { numFmt := format, custom := false, bold := false }
+  | some st => if st.custom then st else { st with numFmt := format }
+
+/-- `(*File).setCellTimeFunc` as far as C19 is concerned: the date-system flag is read from the
+workbook (`wb.WorkbookPr` may be absent: 1900 system), the value is converted with that flag, and
+the default date style is applied only when a number was stored -/
+def setCellTimeFunc (wbDate1904 : Option Bool) (cur : Option CellStyle) (utc offset : Int) (wall : Civil) :
+    Stored × Option CellStyle :=
+  let date1904 := match wbDate1904 with
+    | some b => b
+    | none => false
+  match setCellTime utc offset date1904 with
+  | .num n => (.num n, some (setDefaultTimeStyle cur (getTimeNumFmt wall)))
+  | .text => (.text, cur)
+
+/-! ### `time.Duration` cells -/
+
+/-- exact value of `value.Seconds()/86400` for a duration of `d` nanoseconds -/
+def durationSerial (d : Int) : Rat := (d : Rat) / (dayNanoseconds : Rat)
+
+/-- `getDurationNumFmt(d)`: 46 `[h]:mm:ss` from 24 h, 20 `h:mm` for whole minutes, else 21 `h:mm:ss` -/
+def getDurationNumFmt (d : Int) : Int :=
+  if d ≥ 24 * 3600 * nsPerSec then 46
+  else if d.tmod (60 * nsPerSec) = 0 then 20
+  else 21
+
 end Impl
 
 namespace Spec
@@ -405,6 +457,11 @@ def pow2 (k : Nat) : Rat := (1 : Rat) / ((2 ^ k : Nat) : Rat)
 
 /-- measured: |stored − exact| ≤ 2⁻⁴⁰ below serial 64 (ulp 2⁻⁴⁷), ≤ 2⁻³⁰ up to 2²² (ulp 2⁻³¹) -/
 def encTol (exactSerialNs : Int) : Rat := if exactSerialNs < 64 * nsPerDay then pow2 40 else pow2 30
+
+/-- `setCellDuration` formats with `strconv.FormatFloat(…, 'f', -1, 32)`: the stored text is the
+shortest decimal that identifies the nearest float32, hence within one float32 ulp — relative 2⁻²³ —
+of the exact value (measured on every `dur` transcript line) -/
+def durTol (d : Int) : Rat := (if d < 0 then -(Impl.durationSerial d) else Impl.durationSerial d) * pow2 23
 
 /-- assumed by `decode_tolerant`: 2⁻³⁸ day (314 ns; the Julian path rounds to the microsecond)
 for days ≤ 62, 2⁻¹⁸ day (0.33 s; the Gregorian path rounds to the second) above.  Go's Julian
